@@ -143,6 +143,21 @@ func c12long(c *core.Ctx) {
 		}
 		lcs[i] = lc
 	}
+	// directed: prices whose reciprocal lies just below an 8-decimal number (1/p = r - delta with delta < 10^-17): a
+	// division that rounds at 16 decimals before truncating to 8 yields r, the truncated reciprocal is r - 10^-8
+	for k := 0; k < c.Pick(24, 200); k++ {
+		r := decimal.New(int64(1+rng.Intn(6500)), -8)
+		p := decimal.New(1, 0).DivRound(r, 40).Truncate(8).Add(decimal.New(1, -8)) // the next 8-decimal number above 1/r
+		lc := longCase{Order: []string{"AAA", "BBB", "CCC"}, V: "AAA", Decls: []longDecl{{C: "AAA", T: "BBB", P: p}}}
+		if k%2 == 1 {
+			lc.Decls = append(lc.Decls, longDecl{C: "CCC", T: "BBB", P: decimal.New(int64(1+rng.Intn(99)), 0)})
+		}
+		if k == 0 {
+			lc.Decls[0].P = decimal.RequireFromString("110.72124929")
+		}
+		lcs = append(lcs, lc)
+	}
+	n = len(lcs)
 	cases := make([]map[string]any, n)
 	core.Parallel(n, func(i int) { cases[i] = observePricesLong(i+1, lcs[i], 6) })
 	c.Add("long_price_graphs", n)
